@@ -58,11 +58,27 @@ pub fn run(ctx: &Ctx) -> i32 {
                 }
             }
         }
+        // one in eight non-indexed sprites gets its palette from a legacy chunk (several packets, skips)
+        let mut palprog = palprog;
+        if sp.fmt != Fmt::Indexed && sp.sprite_ud.is_none() && i % 8 == 3 {
+            let kind = if rng.chance(1, 2) { 4u16 } else { 0x11 };
+            let pcase = rng.below(7);
+            let packets = crate::checks::c11::gen_packets(&mut rng, kind, pcase);
+            sp.palette = Some(crate::checks::c11::legacy_expected(kind, &packets));
+            palprog = PaletteProgram::Chunks(vec![ChunkSpec::OldPalette { kind, packets }]);
+        }
+        let mut opts = opts.clone();
+        if let Some(p) = &sp.palette {
+            if p.len() <= 2000 {
+                opts.palette_probe = p.keys().cloned().collect();
+            }
+        }
+        let opts = &opts;
         let feature = gen::features(&sp);
         let mut res = CaseResult::ok(feature, 0, "ok");
         for p in 0..programs_per_model {
             let v = program_variation(&mut rng);
-            let (_bytes, leaves, viol) = roundtrip(&sp, &palprog, &mut rng, &v, &opts, "structure");
+            let (_bytes, leaves, viol) = roundtrip(&sp, &palprog, &mut rng, &v, opts, "structure");
             res.leaves += leaves;
             res.count("programs", 1);
             if let Some(v) = viol {
